@@ -53,6 +53,7 @@ pub struct WorldOpts {
     pub tight_limits: bool,
     pub slices_unsliced: bool,
     pub allow_random_cfg: bool,
+    pub swallowing_terminals: bool,
 }
 
 impl Default for WorldOpts {
@@ -66,6 +67,7 @@ impl Default for WorldOpts {
             tight_limits: false,
             slices_unsliced: false,
             allow_random_cfg: true,
+            swallowing_terminals: false,
         }
     }
 }
@@ -177,7 +179,7 @@ pub fn tight_limits(rng: &mut Rng) -> LimitsSpec {
 pub fn gen_world(rng: &mut Rng, o: &WorldOpts) -> (WorldSpec, bool) {
     let use_rand = o.allow_random_cfg && o.want_tags.iter().all(|t| *t == "prod") && rng.chance(0.2);
     let (gid, gkind, gtext0, _tokref) = if use_rand {
-        ("rand_cfg".to_string(), GKind::Lark, random_cfg(rng, o.tight_limits), false)
+        ("rand_cfg".to_string(), GKind::Lark, random_cfg(rng, o.swallowing_terminals), false)
     } else {
         let e = pick_entry(rng, o);
         (e.id.to_string(), e.kind, e.text.to_string(), e.has("tokref"))
@@ -1620,6 +1622,7 @@ fn gen_c20(rng: &mut Rng, seed: u64, index: u64, long: bool) -> Scenario {
     o.avoid_tags = vec![];
     o.prefer_tags = vec!["heavy"];
     o.tight_limits = rng.chance(0.7);
+    o.swallowing_terminals = true;
     o.vocab_kinds = vec!["byte", "byte", "synth", "bpe"];
     let (mut world, productive) = gen_world(rng, &o);
     let mutated = sub < 3;
